@@ -29,13 +29,19 @@ func (c *context) ParseGo() bool {
 	if err != nil {
 		panic(err)
 	}
+	// The go tool reports files under the directory's real path: use the same
+	// path for the overlay, or the placeholder is not seen when the directory
+	// is reached through a symbolic link.
+	if realDir, err := filepath.EvalSymlinks(absDir); err == nil {
+		absDir = realDir
+	}
 
 	parserGenPath := filepath.Join(absDir, parserGenGo)
 
 	// Parse and analyze Go sources in the project directory.
 	cfg := &packages.Config{
 		Mode: packages.NeedName | packages.NeedTypes | packages.NeedSyntax,
-		Dir:  filepath.Clean(c.Dir),
+		Dir:  absDir,
 		Fset: c.Fset,
 		Overlay: map[string][]byte{
 			// Inject the placeholder implementations.
